@@ -278,7 +278,7 @@ def no_shared_memory(src, res, opd, ctx, opname):
 def alias_check(sources, res, opd, ctx, opname):
     """An index derived from others must behave as its own array from then on: mutating the result in place
     (shift_common, update, append) must leave every source index exactly as it was. Call last: `res` is consumed."""
-    if ctx.focus not in (None, "C06"):
+    if ctx.focus not in (None, "C06", "C07"):
         return
     snaps = [(src, key_of(src)) for src in sources]
 
@@ -287,6 +287,12 @@ def alias_check(sources, res, opd, ctx, opname):
             if key_of(src) != k:
                 ctx.v("C06", "%s:source-changed-through-result" % opname, opd,
                       "after %s on the RESULT of %s the source index changed from %r to %r" % (step, opname, describe_key(k), describe_key(key_of(src))))
+                try:
+                    src.validate(True)
+                    M.read_dense(src)
+                except Exception as e:  # noqa
+                    ctx.v("C07", "%s:source-malformed-through-result" % opname, opd,
+                          "after %s on the RESULT of %s the untouched source index is no longer well-formed: %r (%r)" % (step, opname, e, src))
                 return False
         return True
 
@@ -783,9 +789,10 @@ def _expand_observe_mutate_observe(key, d, fresh, ctx, R, cols):
                 s = make(layout)
                 old_cube = _touch(s, save=layout == "built")
                 mutate(s)
-                _reobserve(s, exp, od, ctx, opname, old_cube if exp.shape[0] == d.shape[0] else None, save=layout == "built")
-                if layout != "built":
+                if ctx.focus in (None, "C07", "C15"):
                     wellformed(s, exp, od, ctx, opname)
+                if ctx.focus in (None, "C06", "C17"):
+                    _reobserve(s, exp, od, ctx, opname, old_cube if exp.shape[0] == d.shape[0] else None, save=layout == "built")
             except Exception as e:  # noqa
                 ctx.v("C06", opname + ":stale:raised", od, repr(e))
             ctx.ntrans += 1
@@ -816,7 +823,8 @@ def _expand_observe_mutate_observe(key, d, fresh, ctx, R, cols):
                 exp[(r1,) + hc] = v
                 exp[(r2,) + hc] = common
                 ent = {(common,) + hc: numpy.array([r2], dtype=U32), (v,) + hc: numpy.array([r1], dtype=U32)}
-                for then in (None, v):
+                third = next(x for x in COMMONS if x not in (common, v))
+                for then in (None, v, third):
                     def mut(s, ent=ent, then=then):
                         s.update(ent)
                         if then is not None:
